@@ -27,9 +27,11 @@ class WAPProtocol(HTTPProtocol):
 
         waptop = self.config.get("protocols.wap.WAPProtocol", "waptop")
         self.waptop = waptop
-        if self.requestparts[1].startswith(waptop):
-            # If it starts with waptop, *guaranteed* to be wap.
-            self.requestparts[1] = self.requestparts[1][len(waptop) :]
+        target = self.requestparts[1]
+        if target == waptop or target.startswith((waptop + "/", waptop + "?")):
+            # If it starts with waptop, *guaranteed* to be wap.  (As a whole
+            # path segment: /wapfile.txt is a plain HTTP request.)
+            self.requestparts[1] = target[len(waptop) :]
             return True
 
         self.headerslurp()
